@@ -3,6 +3,7 @@ package main
 import (
 	"math"
 	"math/big"
+	"strconv"
 
 	d128 "github.com/woodsbury/decimal128"
 )
@@ -168,6 +169,17 @@ func genC16(g *Gen) {
 			x = mk(n < 0, new(big.Int).Add(new(big.Int).Mul(c, big.NewInt(10)), big.NewInt(int64(g.r.Intn(10)))), -1)
 		}
 		g.un(sweepOps[i/601], x)
+	})
+	// the band of 35-digit coefficients and the other special coefficients at eight consecutive exponents (all residues of
+	// the biased exponent), magnitudes where every function has a finite non-trivial result
+	g.gridRun(len(gridCoefs)*8, 0.1, func(i int) {
+		c := gridCoefs[i%len(gridCoefs)]
+		if c.Sign() == 0 {
+			return
+		}
+		e := -len(c.String()) - 3 + i/len(gridCoefs)
+		g.un(ops[g.r.Intn(len(ops))], mk(false, c, e+g.r.Intn(2)*4))
+		g.un(ops[g.r.Intn(4)], mk(true, c, e))
 	})
 	for !g.w.full() {
 		op := ops[g.r.Intn(len(ops))]
@@ -355,6 +367,25 @@ func genC18(g *Gen) {
 		}
 		// and the base 1 in every encoding, any exponent
 		g.pow(mk(false, pow10(k), -k), randFinite(g.r), g.r.Intn(6), true)
+	})
+	// general-path results at both ends of the range: x^y with y ln x / ln 10 = T for T around the smallest subnormal, the
+	// flush threshold and the overflow threshold, direct and through the reciprocal branch
+	targets := []int{-6180, -6178, -6177, -6176, -6175, -6174, -6172, -6170, -6168, -6165, -6150, 6100, 6140, 6143, 6144, 6145, 6146}
+	bases := []float64{2, 0.5, 3, 0.7, 1.5, 7, 0.03, 123.456}
+	g.gridRun(len(targets)*len(bases), 0.12, func(i int) {
+		tgt, b := targets[i%len(targets)], bases[i/len(targets)]
+		yv := float64(tgt) * math.Ln10 / math.Log(b)
+		yv += g.r.Float64()*2 - 1
+		ys := strconv.FormatFloat(yv, 'f', g.r.Intn(4), 64)
+		y, err1 := d128.Parse(ys)
+		x, err2 := d128.Parse(strconv.FormatFloat(b, 'g', -1, 64))
+		if err1 != nil || err2 != nil {
+			return
+		}
+		if g.r.Intn(3) == 0 && y.Equal(d128.Trunc(y)) {
+			x = x.Neg()
+		}
+		g.pow(x, y, g.r.Intn(6), true)
 	})
 	// powers of ten raised to integers far too large for the range (the exponent product leaves 64 bits)
 	bigYs := []string{"1000000000000000", "1500000000000001", "5000000000000000001", "4503599627370496", "6148914691236517206", "18446744073709551615", "18446744073709551617",
